@@ -476,84 +476,8 @@ theorem inv_reachable (app : App) (hwf : app.WF) (s : State) (h : app.Reachable 
 
 /-! ## commutation of independent dispatches (S3) -/
 
-/-- two optional states: both absent, or both present and equal on `A` -/
-def OptAgree (A : Nat → Prop) : Option State → Option State → Prop
-  | none, none => True
-  | some a, some b => ∀ k, A k → a k = b k
-  | _, _ => False
-
-/-- Two partial steps with disjoint write sets, each of which reads nothing the other
-    writes, commute. -/
-theorem commute_of_frames (f g : State → Option State) (Wf Wg : Nat → Prop)
-    (hdisj : ∀ k, Wf k → ¬ Wg k)
-    (f_wr : ∀ s s', f s = some s' → ∀ k, ¬ Wf k → s' k = s k)
-    (g_wr : ∀ s s', g s = some s' → ∀ k, ¬ Wg k → s' k = s k)
-    (f_fr : ∀ s t, (∀ k, ¬ Wg k → s k = t k) → OptAgree (fun k => ¬ Wg k) (f s) (f t))
-    (g_fr : ∀ s t, (∀ k, ¬ Wf k → s k = t k) → OptAgree (fun k => ¬ Wf k) (g s) (g t))
-    (s : State) : (f s).bind g = (g s).bind f := by
-  cases hf : f s with
-  | none =>
-    cases hg : g s with
-    | none => rfl
-    | some s2 =>
-      have := f_fr s2 s (g_wr s s2 hg)
-      rw [hf] at this
-      cases hf2 : f s2 with
-      | none => simp [hf2]
-      | some x => rw [hf2] at this; exact this.elim
-  | some s1 =>
-    have h1 := g_fr s1 s (f_wr s s1 hf)
-    cases hg : g s with
-    | none =>
-      rw [hg] at h1
-      cases hg1 : g s1 with
-      | none => simp [hg1]
-      | some x => rw [hg1] at h1; exact h1.elim
-    | some s2 =>
-      have h2 := f_fr s2 s (g_wr s s2 hg)
-      rw [hg] at h1
-      rw [hf] at h2
-      cases hg1 : g s1 with
-      | none => rw [hg1] at h1; exact h1.elim
-      | some s12 =>
-        cases hf2 : f s2 with
-        | none => rw [hf2] at h2; exact h2.elim
-        | some s21 =>
-          rw [hg1] at h1; rw [hf2] at h2
-          simp only [Option.bind_some, hg1, hf2, Option.some.injEq]
-          apply State.ext
-          intro k
-          by_cases hk : Wg k
-          · have hkf : ¬ Wf k := fun h => hdisj k h hk
-            rw [h1 k hkf, f_wr s2 s21 hf2 k hkf]
-          · rw [g_wr s1 s12 hg1 k hk, h2 k hk]
-
 namespace App
 variable {app : App}
-
-theorem cascade_agree (hwf : app.WF) (A : Nat → Prop) (ds : List Nat)
-    (h : ∀ d ∈ ds, d < app.size ∧ ∀ a ∈ (app.param d).anc, A a) (s t : State)
-    (hst : ∀ k, A k → s k = t k) : ∀ k, A k → app.cascade ds s k = app.cascade ds t k := by
-  induction ds generalizing s t with
-  | nil => exact hst
-  | cons d r ih =>
-    show ∀ k, A k → app.cascade r (upd s d (expected (app.param d) s)) k
-        = app.cascade r (upd t d (expected (app.param d) t)) k
-    have hd := h d List.mem_cons_self
-    apply ih (fun x hx => h x (List.mem_cons_of_mem _ hx))
-    intro k hk
-    rw [upd_apply, upd_apply, expected_frame hwf hd.1 s t (fun a ha => hst a (hd.2 a ha)), hst k hk]
-
-theorem setParam_agree (hwf : app.WF) (A : Nat → Prop) (i : Nat) (v : Val) (hi : A i)
-    (h : ∀ d ∈ app.desc i, ∀ a ∈ (app.param d).anc, A a) (s t : State)
-    (hst : ∀ k, A k → s k = t k) : ∀ k, A k → app.setParam i v s k = app.setParam i v t k := by
-  unfold setParam
-  rw [hst i hi]
-  split
-  · exact hst
-  · apply cascade_agree hwf A _ (fun d hd => ⟨((mem_desc app).mp hd).1, h d hd⟩)
-    intro k hk
-    rw [upd_apply, upd_apply, hst k hk]
 
 /-- the part of `dispatch` behind the address look-up -/
 def dispatchAt (app : App) (i : Nat) (args : List Val) (s : State) : Option State :=
@@ -588,60 +512,193 @@ theorem dispatchAt_wr (app : App) (i : Nat) (args : List Val) (s s' : State)
         · cases h; rfl
     · cases h
 
-theorem dispatchAt_frame (hwf : app.WF) (A : Nat → Prop) (i : Nat) (hi : i < app.size) (args : List Val)
-    (hA : ∀ j x, app.wr i j → app.le x j → A x) (s t : State)
-    (hst : ∀ k, A k → s k = t k) : OptAgree A (app.dispatchAt i args s) (app.dispatchAt i args t) := by
-  have hAi : A i := hA i i (Or.inl rfl) (Or.inl rfl)
-  have hanc : ∀ a ∈ (app.param i).anc, s a = t a :=
-    fun a ha => hst a (hA i a (Or.inl rfl) (Or.inr ha))
-  unfold dispatchAt
-  simp only
-  rw [ptrOff_frame hwf hi s t hanc, guardsOn_frame hwf hi s t hanc]
-  split
-  · trivial
-  · split
-    · exact hst
-    · split
-      · trivial
-      · split
-        · exact setParam_agree hwf A i _ hAi
-            (fun d hd a ha => hA d a (Or.inr hd) (Or.inr ha)) s t hst
-        · exact hst
-    · trivial
+/-- what a `setParam` that really runs leaves behind -/
+theorem setParam_shape (hwf : app.WF) (i : Nat) (v : Val) (s : State)
+    (hne : ¬ ((app.param i).kind = .tog ∧ s i = v)) (k : Nat) :
+    app.setParam i v s k =
+      if k = i then v
+      else if k ∈ app.desc i then expected (app.param k) (app.setParam i v s)
+      else s k := by
+  by_cases hki : k = i
+  · subst hki; rw [if_pos rfl]; exact setParam_self hwf _ _ _
+  · rw [if_neg hki]
+    by_cases hkd : k ∈ app.desc i
+    · rw [if_pos hkd]; exact setParam_desc hwf i v s hne hkd
+    · rw [if_neg hkd]
+      exact setParam_not_wr app i v s (fun h => h.elim hki hkd)
 
-theorem indep_frame (hwf : app.WF) {pa pb : Nat} (ha : pa < app.size)
-    (hne : pa ≠ pb) (h1 : pa ∉ (app.param pb).anc) (h2 : pb ∉ (app.param pa).anc) :
-    ∀ j x, app.wr pa j → app.le x j → ¬ app.wr pb x := by
-  intro j x hj hx hw
-  have hj' := (wr_iff ha).mp hj
+/-- nothing an independent port reads or holds is written -/
+theorem indep_not_wr (hwf : app.WF) {pa pb : Nat} (ha : pa < app.size)
+    (hne : pa ≠ pb) (h2 : pb ∉ (app.param pa).anc) : ∀ x, app.le x pa → ¬ app.wr pb x := by
+  intro x hx hw
   have hpbx : app.le pb x := by
     rcases hw with rfl | hw
     · exact Or.inl rfl
     · exact Or.inr ((mem_desc app).mp hw).2
-  have hpbj := le_trans hwf hj'.1 hpbx hx
-  rcases hj'.2 with rfl | hpa
-  · rcases hpbj with rfl | h
-    · exact hne rfl
-    · exact h2 h
-  · rcases hpbj with rfl | hpb
-    · exact h1 hpa
-    · rcases hwf.anc_chain j hj'.1 pa hpa pb hpb with h | h | h
-      · exact hne h
-      · exact h1 h
-      · exact h2 h
+  rcases le_trans hwf ha hpbx hx with h | h
+  · exact hne h.symm
+  · exact h2 h
+
+/-- confluence of the change hooks: two writes to ports of which neither depends on the other commute, also
+    when they share dependants — a shared dependant takes its default from the final state in both orders -/
+theorem setParam_commute (hwf : app.WF) {pa pb : Nat} (ha : pa < app.size) (hb : pb < app.size)
+    (hne : pa ≠ pb) (h1 : pa ∉ (app.param pb).anc) (h2 : pb ∉ (app.param pa).anc)
+    (v w : Val) (s : State) :
+    app.setParam pb w (app.setParam pa v s) = app.setParam pa v (app.setParam pb w s) := by
+  have hpa_nw : ¬ app.wr pb pa := indep_not_wr hwf ha hne h2 pa (Or.inl rfl)
+  have hpb_nw : ¬ app.wr pa pb := indep_not_wr hwf hb hne.symm h1 pb (Or.inl rfl)
+  have hsa : app.setParam pb w s pa = s pa := setParam_not_wr app pb w s hpa_nw
+  have hsb : app.setParam pa v s pb = s pb := setParam_not_wr app pa v s hpb_nw
+  by_cases hna : (app.param pa).kind = .tog ∧ s pa = v
+  · have e1 : app.setParam pa v s = s := by unfold setParam; rw [if_pos hna]
+    have e2 : app.setParam pa v (app.setParam pb w s) = app.setParam pb w s := by
+      unfold setParam; rw [if_pos ⟨hna.1, by rw [← hna.2]; exact hsa⟩]
+    rw [e1, e2]
+  by_cases hnb : (app.param pb).kind = .tog ∧ s pb = w
+  · have e1 : app.setParam pb w s = s := by unfold setParam; rw [if_pos hnb]
+    have e2 : app.setParam pb w (app.setParam pa v s) = app.setParam pa v s := by
+      unfold setParam; rw [if_pos ⟨hnb.1, by rw [← hnb.2]; exact hsb⟩]
+    rw [e1, e2]
+  have hna' : ¬ ((app.param pa).kind = .tog ∧ app.setParam pb w s pa = v) := by rw [hsa]; exact hna
+  have hnb' : ¬ ((app.param pb).kind = .tog ∧ app.setParam pa v s pb = w) := by rw [hsb]; exact hnb
+  apply State.ext
+  intro k
+  induction k using Nat.strongRecOn with
+  | ind k ih =>
+    rw [setParam_shape hwf pb w _ hnb' k, setParam_shape hwf pa v _ hna' k]
+    rw [setParam_shape hwf pa v s hna k, setParam_shape hwf pb w s hnb k]
+    have hfr : ∀ (hk : k < app.size),
+        expected (app.param k) (app.setParam pb w (app.setParam pa v s))
+          = expected (app.param k) (app.setParam pa v (app.setParam pb w s)) :=
+      fun hk => expected_frame hwf hk _ _ (fun a haa => ih a (hwf.anc_lt k hk a haa))
+    by_cases hkb : k = pb
+    · subst hkb
+      rw [if_pos rfl, if_neg hne.symm]
+      have : k ∉ app.desc pa := fun h => hpb_nw (Or.inr h)
+      rw [if_neg this, if_pos rfl]
+    rw [if_neg hkb]
+    by_cases hka : k = pa
+    · subst hka
+      rw [if_pos rfl]
+      have : k ∉ app.desc pb := fun h => hpa_nw (Or.inr h)
+      rw [if_neg this, if_pos rfl]
+    rw [if_neg hka, if_neg hka, if_neg hkb]
+    by_cases hdb : k ∈ app.desc pb
+    · have hk := ((mem_desc app).mp hdb).1
+      rw [if_pos hdb, if_pos hdb]
+      by_cases hda : k ∈ app.desc pa
+      · rw [if_pos hda]; exact hfr hk
+      · rw [if_neg hda, hfr hk]
+        exact setParam_expected_not_wr hwf pa v _ hk (fun h => h.elim hka hda)
+    · rw [if_neg hdb, if_neg hdb]
+      by_cases hda : k ∈ app.desc pa
+      · have hk := ((mem_desc app).mp hda).1
+        rw [if_pos hda, if_pos hda, ← hfr hk]
+        exact (setParam_expected_not_wr hwf pb w _ hk (fun h => h.elim hkb hdb)).symm
+      · rw [if_neg hda, if_neg hda]
+
+/-- the outcome of `dispatchAt` is decided by what the port reads: no match, matched without a change, or a
+    `setParam` -/
+inductive Outcome where
+  | miss
+  | same
+  | set (v : Val)
+
+def outcome (app : App) (i : Nat) (args : List Val) (s : State) : Outcome :=
+  let p := app.param i
+  if ptrOff p s then .miss
+  else match args with
+    | [] => .same
+    | [v] =>
+      match store p.kind v with
+      | none => .miss
+      | some v' => if guardsOn p s then .set v' else .same
+    | _ => .miss
+
+def Outcome.run (app : App) (i : Nat) (s : State) : Outcome → Option State
+  | .miss => none
+  | .same => some s
+  | .set v => some (app.setParam i v s)
+
+theorem dispatchAt_outcome (app : App) (i : Nat) (args : List Val) (s : State) :
+    app.dispatchAt i args s = (app.outcome i args s).run app i s := by
+  unfold dispatchAt outcome
+  simp only
+  by_cases hp : ptrOff (app.param i) s = true
+  · rw [if_pos hp, if_pos hp]; rfl
+  · rw [if_neg hp, if_neg hp]
+    match args with
+    | [] => rfl
+    | [v] =>
+      simp only
+      cases store (app.param i).kind v with
+      | none => rfl
+      | some v' =>
+        simp only
+        by_cases hg : guardsOn (app.param i) s = true
+        · rw [if_pos hg, if_pos hg]; rfl
+        · rw [if_neg hg, if_neg hg]; rfl
+    | _ :: _ :: _ => rfl
+
+theorem outcome_frame (hwf : app.WF) {i : Nat} (hi : i < app.size) (args : List Val) (s t : State)
+    (h : ∀ a ∈ (app.param i).anc, s a = t a) : app.outcome i args s = app.outcome i args t := by
+  unfold outcome
+  simp only
+  rw [ptrOff_frame hwf hi s t h, guardsOn_frame hwf hi s t h]
+
+/-- an independent dispatch does not change the outcome -/
+theorem outcome_indep (hwf : app.WF) {pa pb : Nat} (ha : pa < app.size)
+    (hne : pa ≠ pb) (h2 : pb ∉ (app.param pa).anc) (va vb : List Val) (s s' : State)
+    (h : app.dispatchAt pb vb s = some s') : app.outcome pa va s' = app.outcome pa va s :=
+  outcome_frame hwf ha va s' s (fun a haa =>
+    dispatchAt_wr app pb vb s s' h a (indep_not_wr hwf ha hne h2 a (Or.inr haa)))
 
 theorem dispatchAt_commute (hwf : app.WF) {pa pb : Nat} (ha : pa < app.size) (hb : pb < app.size)
     (hne : pa ≠ pb) (h1 : pa ∉ (app.param pb).anc) (h2 : pb ∉ (app.param pa).anc)
     (va vb : List Val) (s : State) :
     (app.dispatchAt pa va s).bind (app.dispatchAt pb vb)
       = (app.dispatchAt pb vb s).bind (app.dispatchAt pa va) := by
-  apply commute_of_frames _ _ (app.wr pa) (app.wr pb)
-  · intro k hk
-    exact indep_frame hwf ha hne h1 h2 k k hk (Or.inl rfl)
-  · exact dispatchAt_wr app pa va
-  · exact dispatchAt_wr app pb vb
-  · exact dispatchAt_frame hwf _ pa ha va (indep_frame hwf ha hne h1 h2)
-  · exact dispatchAt_frame hwf _ pb hb vb (indep_frame hwf hb hne.symm h2 h1)
+  have oa : ∀ s', app.dispatchAt pb vb s = some s' → app.outcome pa va s' = app.outcome pa va s :=
+    fun s' h => outcome_indep hwf ha hne h2 va vb s s' h
+  have ob : ∀ s', app.dispatchAt pa va s = some s' → app.outcome pb vb s' = app.outcome pb vb s :=
+    fun s' h => outcome_indep hwf hb hne.symm h1 vb va s s' h
+  rw [dispatchAt_outcome app pa va s] at ob ⊢
+  rw [dispatchAt_outcome app pb vb s] at oa ⊢
+  cases hoa : app.outcome pa va s with
+  | miss =>
+    rw [hoa] at oa
+    cases hob : app.outcome pb vb s with
+    | miss => rfl
+    | same =>
+      have := oa s (by rw [hob]; rfl)
+      simp only [Outcome.run, Option.bind_some, Option.bind_none, dispatchAt_outcome, this]
+    | set w =>
+      have := oa _ (by rw [hob]; rfl)
+      simp only [Outcome.run, Option.bind_some, Option.bind_none, dispatchAt_outcome, this]
+  | same =>
+    rw [hoa] at oa
+    cases hob : app.outcome pb vb s with
+    | miss =>
+      simp only [Outcome.run, Option.bind_some, Option.bind_none, dispatchAt_outcome, hob]
+    | same =>
+      have := oa s (by rw [hob]; rfl)
+      simp only [Outcome.run, Option.bind_some, dispatchAt_outcome, this, hob]
+    | set w =>
+      have := oa _ (by rw [hob]; rfl)
+      simp only [Outcome.run, Option.bind_some, dispatchAt_outcome, this, hob]
+  | set v =>
+    rw [hoa] at oa ob
+    have hb' := ob _ rfl
+    cases hob : app.outcome pb vb s with
+    | miss =>
+      simp only [Outcome.run, Option.bind_some, Option.bind_none, dispatchAt_outcome, hb', hob]
+    | same =>
+      have := oa s (by rw [hob]; rfl)
+      simp only [Outcome.run, Option.bind_some, dispatchAt_outcome, this, hb', hob]
+    | set w =>
+      have := oa _ (by rw [hob]; rfl)
+      simp only [Outcome.run, Option.bind_some, dispatchAt_outcome, this, hb', hob]
+      rw [setParam_commute hwf ha hb hne h1 h2]
 
 theorem dispatch_commute (hwf : app.WF) (a1 a2 : Path) (v1 v2 : List Val)
     (h : ∀ pa pb, app.findAddr a1 = some pa → app.findAddr a2 = some pb →
@@ -1273,7 +1330,7 @@ theorem arr_elem (hwf : app.WF) {s : State} (hs : app.Inv s) {base : Path} {firs
     ∃ r, app.dispatch (base ++ natDigits k) [mapArgVal (app.param (first + k)).kind (s (first + k))] cur
         = some r ∧ r (first + k) = s (first + k) ∧ ∀ x, x ≠ first + k → r x = cur x := by
   obtain ⟨_, hel⟩ := hwf.array_ok base first len hw
-  obtain ⟨haddr, hguards, hanc, _, hnd⟩ := hel k hk
+  obtain ⟨haddr, hguards, hanc, hnd⟩ := hel k hk
   have hfirst : first < app.size := by omega
   have hks : first + k < app.size := by omega
   have hancs : ∀ a ∈ (app.param (first + k)).anc, cur a = s a := by
@@ -1392,7 +1449,7 @@ theorem step_array (hwf : app.WF) {s : State} (hs : app.Inv s) {base : Path} {fi
         apply h2 a
         intro hcon
         have hk : a - first < len := by omega
-        have := (hel (a - first) hk).2.2.2.2 i hi2
+        have := (hel (a - first) hk).2.2.2 i hi2
         rw [show first + (a - first) = a by omega] at this
         exact this ha
       · intro i hi
